@@ -99,6 +99,26 @@ def has_cycle_reachable(roots):
     return any(dfs(m) for m in used if m in g)
 
 
+def has_cycle_anywhere(roots):
+    """a PASTE cycle among the declared macros, used or not; also True when a declared macro
+    pastes an undeclared one (the checker visits every macro body)"""
+    g = macro_graph(roots)
+    state = {}
+
+    def dfs(m):
+        if state.get(m) == 1:
+            return True
+        if state.get(m) == 2:
+            return False
+        state[m] = 1
+        for t in g.get(m, []):
+            if t not in g or dfs(t):
+                return True
+        state[m] = 2
+        return False
+    return any(dfs(m) for m in g)
+
+
 # ---------------------------------------------------------------------------- includes
 
 def inline_includes(files, root="root.jst", depth=0, stack=()):
